@@ -116,3 +116,64 @@ Proof.
   intros H. unfold check_rcase, check_scase, ctl_finished, ctl_in_transit. cbn [fst snd].
   rewrite (restart_nothing_skipped 0 nodes H). reflexivity.
 Qed.
+
+(* ---- the WINDOW between a termination and its notification (Model.nstate) *)
+Lemma observed_view_terminate sel nodes : observed_view (terminate_sel sel nodes) = observed_view nodes.
+Proof.
+  unfold observed_view, terminate_sel. rewrite map_map. apply map_ext. intros [s st]. cbn [fst snd].
+  destruct st; [destruct (sel (s, NRunning))| |]; reflexivity.
+Qed.
+
+Lemma window_lists_unchanged sel start stages nodes :
+  win_finished start stages (terminate_sel sel nodes) = win_finished start stages nodes /\
+  win_in_transit start (terminate_sel sel nodes) = win_in_transit start nodes.
+Proof. unfold win_finished, win_in_transit. rewrite observed_view_terminate. split; reflexivity. Qed.
+
+Lemma stage_active_view nodes s :
+  stage_active (observed_view nodes) s = existsb (fun ns => (fst ns =? s) && negb (is_observed (snd ns))) nodes.
+Proof. unfold stage_active, observed_view. induction nodes as [|[t st] l IH]; [reflexivity|]. cbn [map existsb fst snd]. rewrite IH. reflexivity. Qed.
+
+(* a stage with a component that is running OR has terminated without the controller having been notified is in
+   transit and not finished (from the starting stage on) *)
+Lemma window_unobserved_in_transit start stages nodes s st :
+  In (s, st) nodes -> st <> NObserved -> start <= s ->
+  In s (win_in_transit start nodes) /\ ~ In s (win_finished start stages nodes).
+Proof.
+  intros Hin Hst Hle.
+  assert (E : stage_active (restart_nodes start (observed_view nodes)) s = true).
+  { rewrite restart_active. replace (start <=? s) with true by lia. rewrite andb_true_r, stage_active_view.
+    apply existsb_exists. exists (s, st). split; [assumption|]. cbn [fst snd]. rewrite Z.eqb_refl.
+    destruct st; [reflexivity|reflexivity|congruence]. }
+  unfold win_in_transit, win_finished, ctl_in_transit, ctl_finished. split.
+  - apply in_transit_active; assumption.
+  - unfold stages_finished. rewrite filter_In, E. intros [_ H]; discriminate.
+Qed.
+
+(* every component of a finished stage (from the starting stage on) has been observed, hence reports a terminal
+   state: counting the weight of a finished stage in full IS its fraction of terminated components *)
+Lemma sum_ind_le (f g : Z * nstate -> bool) nodes : (forall x, In x nodes -> f x = g x) ->
+  sumZ (map (fun x => if f x then 1 else 0) nodes) = sumZ (map (fun x => if g x then 1 else 0) nodes).
+Proof.
+  induction nodes as [|x l IH]; intros H; [reflexivity|]. cbn [map]. rewrite !sumZ_cons.
+  rewrite (H x (or_introl eq_refl)), IH; [reflexivity|]. intros; apply H; right; assumption.
+Qed.
+
+Lemma window_finished_complete start stages nodes s : start <= s ->
+  In s (win_finished start stages nodes) ->
+  (forall st, In (s, st) nodes -> st = NObserved) /\ stage_reported nodes s = stage_size nodes s.
+Proof.
+  intros Hle Hf.
+  assert (Hall : forall st, In (s, st) nodes -> st = NObserved).
+  { intros st Hin. destruct st; try reflexivity; exfalso;
+      [destruct (window_unobserved_in_transit start stages nodes s NRunning Hin ltac:(discriminate) Hle) as [_ H]
+      |destruct (window_unobserved_in_transit start stages nodes s NReported Hin ltac:(discriminate) Hle) as [_ H]];
+      exact (H Hf). }
+  split; [exact Hall|]. unfold stage_reported, stage_size. apply sum_ind_le. intros [t st] Hin. cbn [fst snd].
+  destruct (Z.eqb_spec t s) as [->|_]; [|reflexivity]. rewrite (Hall st Hin). reflexivity.
+Qed.
+
+Lemma stage_reported_bounds nodes s : 0 <= stage_reported nodes s <= stage_size nodes s.
+Proof.
+  unfold stage_reported, stage_size. induction nodes as [|[t st] l IH]; [cbn; lia|]. cbn [map fst snd]. rewrite !sumZ_cons.
+  destruct (t =? s), st; cbn [andb negb]; lia.
+Qed.
